@@ -84,6 +84,19 @@ func dispatchOne(self string, dc dispCase) (map[string]any, string, error) {
 	var src strings.Builder
 	src.WriteString("package d\n\nimport \"example.com/m/f\"\n\n")
 	for _, d := range dc.Decls {
+		switch d.Kind {
+		case "mltrail_on", "mltrail_off":
+			// several lines; the trailing comment on the closing line is a tag line; the next declaration follows at once
+			tag := "+gengo:a"
+			if d.Kind == "mltrail_off" {
+				tag = "+gengo:a=false"
+			}
+			fmt.Fprintf(&src, "// %s is declaration %s.\ntype %s struct {\n\tX int\n} // %s\n", d.Name, d.Name, d.Name, tag)
+			continue
+		case "after_ml":
+			fmt.Fprintf(&src, "type %s struct{ X int }\n\n", d.Name) // no doc comment of its own
+			continue
+		}
 		fmt.Fprintf(&src, "// %s is declaration %s.\n%s", d.Name, d.Name, tagLines(d.Tags))
 		switch d.Kind {
 		case "defined":
@@ -149,6 +162,12 @@ func (D05) method[TM any]() {}
 		spec.Plan[pipe.ModPath+"/d|"+name+"|D13"] = "render_defer_nested_outer" // follow-up registered through the captured context
 		for _, t := range []string{"D02", "D06", "D14", "D26"} {
 			spec.Plan[pipe.ModPath+"/d|"+name+"|"+t] = "render_defer"
+		}
+		if name == "ab" {
+			// this generator renders nothing from GenerateType: everything comes from its deferred callbacks
+			for _, d := range dc.Decls {
+				spec.Plan[pipe.ModPath+"/d|"+name+"|"+d.Name] = "nothing_defer"
+			}
 		}
 	}
 	b, _ := json.Marshal(spec)
